@@ -22,6 +22,7 @@ const (
 	vFn
 	vLambda
 	vCapture
+	vWhile
 )
 
 type vNode struct {
@@ -36,6 +37,8 @@ type vGen struct {
 	budget int
 	next   int
 	nconds int
+	nwhiles int
+	whileN []int
 }
 
 func (g *vGen) block(depth int) []*vNode {
@@ -50,7 +53,7 @@ func (g *vGen) stmt(depth int) *vNode {
 	if g.budget == 0 || depth == 0 {
 		return &vNode{kind: vAct, id: id}
 	}
-	k := vrt.Choice("shape", 14)
+	k := vrt.Choice("shape", 17)
 	if k == 0 {
 		return &vNode{kind: vAct, id: id}
 	}
@@ -93,6 +96,17 @@ func (g *vGen) stmt(depth int) *vNode {
 	case 13:
 		n.kind = vCapture
 		n.body = g.block(depth - 1)
+	case 14, 15, 16:
+		// the condition variable reads true n times, then false (cyclically)
+		n.kind = vWhile
+		n.n = k - 14
+		n.cond = g.nwhiles
+		g.nwhiles++
+		g.whileN = append(g.whileN, n.n)
+		n.body = g.block(depth - 1)
+		if k != 16 {
+			n.els = g.block(depth - 1)
+		}
 	}
 	return n
 }
@@ -138,6 +152,12 @@ func vRender(b []*vNode) string {
 			s += "fn f" + id + " {\n" + vRender(n.body) + "}\nf" + id + "\n"
 		case vLambda:
 			s += "{\n" + vRender(n.body) + "}\n"
+		case vWhile:
+			s += "while $w" + strconv.Itoa(n.cond) + " {\n" + vRender(n.body) + "}"
+			if n.els != nil {
+				s += " else {\n" + vRender(n.els) + "}"
+			}
+			s += "\n"
 		case vCapture:
 			s += "if ?(\n" + vRender(n.body) + ") { log ok" + id + " } else { log ex" + id + " }\n"
 		}
@@ -156,7 +176,19 @@ type vRef struct {
 	pos   int
 	conds []bool
 	bad   bool
+	wcnt  []int // reads of each while condition so far
+	wn    []int
 }
+
+// vWhileCell is the condition variable of a while loop: it reads true n times,
+// then false, cyclically.
+type vWhileCell struct{ cnt, n int }
+
+func (c *vWhileCell) Get() any {
+	c.cnt++
+	return c.cnt%(c.n+1) != 0
+}
+func (c *vWhileCell) Set(x any) error { return nil }
 
 func (r *vRef) block(b []*vNode) vOut {
 	for _, n := range b {
@@ -210,6 +242,25 @@ func (r *vRef) node(n *vNode) vOut {
 			}
 		}
 		if n.n == 0 && n.els != nil {
+			return r.block(n.els)
+		}
+	case vWhile:
+		ran := false
+		for {
+			r.wcnt[n.cond]++
+			if r.wcnt[n.cond]%(r.wn[n.cond]+1) == 0 {
+				break
+			}
+			ran = true
+			o := r.block(n.body)
+			if o.kind == 2 {
+				break
+			}
+			if o.kind == 1 || o.kind == 4 {
+				return o
+			}
+		}
+		if !ran && n.els != nil {
 			return r.block(n.els)
 		}
 	case vIf:
@@ -275,12 +326,15 @@ func VerifC15Nested(budget, depth, nact int) {
 		conds[i] = vrt.Bool("c" + strconv.Itoa(i))
 		nb.AddVar("c"+strconv.Itoa(i), &verifCell{conds[i]})
 	}
+	for i, n := range g.whileN {
+		nb.AddVar("w"+strconv.Itoa(i), &vWhileCell{n: n})
+	}
 	ev := &Evaler{builtin: nb.Ns(), global: &Ns{}, modules: map[string]*Ns{}}
 	ports, ch := verifPorts()
 	err := ev.Eval(parse.Source{Name: "[v]", Code: code}, EvalCfg{Ports: ports})
 	vrt.Reach("program ran")
 
-	r := &vRef{trace: trace, conds: conds}
+	r := &vRef{trace: trace, conds: conds, wcnt: make([]int, len(g.whileN)), wn: g.whileN}
 	o := r.block(prog)
 	vrt.Assert(!r.bad && r.pos == len(trace), "the commands run are the ones the reference interpreter runs, in the same order")
 	vrt.Assert(verifSameLog(w.log, r.log), "the program's output equals the reference interpreter's")
